@@ -133,6 +133,146 @@ _exits = {}             # (kind, class, label field) -> [verdict, message, trace
 _label_defs = {}        # (kind, label field) -> {'set': {symbol template: value text}, 'trace': [...]}
 _x87_live = {}     # (fname, kind) -> {child label: (x87 depth pending while the child is evaluated, trace)}
 _x87_seen = set()
+_depth_at = {}     # (fname, kind, child label) -> [ok | None, message, trace]   `depth` vs %rsp when the child is handed to the generator
+DEPTH_EV = 'depth'
+
+
+def _record_depth(cg):
+    """every interpreter of the generator built from `cg` records the value of `depth` right before a child (operand, sub-statement, address) is
+    handed to gen_expr / gen_stmt / gen_addr: a ('depth', value) event precedes the child's event"""
+    if getattr(cg, '_c20_depth_events', False):
+        return
+    orig = cg.interp
+
+    def interp(*a, **kw):
+        it = orig(*a, **kw)
+        for name in ('gen_expr', 'gen_stmt', 'gen_addr'):
+            base = it.cut.get(name)
+            if base is None:
+                continue
+
+            def h(it_, ctx, n, args, base=base, name=name):
+                a0 = args[0] if args else None
+                if isinstance(a0, Obj) and a0.meta.get('root'):
+                    return base(it_, ctx, n, args)
+                at = len(ctx.events)
+                d = it_.read_global('depth')
+                r = base(it_, ctx, n, args)
+                if len(ctx.events) > at and ctx.events[at][0] == name:
+                    ctx.events.insert(at, (DEPTH_EV, d))
+                return r
+            it.cut[name] = h
+        return it
+    cg.interp = interp
+    cg._c20_depth_events = True
+
+
+def _child_depths(ctx, nodes):
+    """{id(pseudo node): value of `depth` when that child was handed over}; None when the events and the nodes do not correspond"""
+    ds, cur = [], None
+    for e in ctx.events:
+        if e[0] == DEPTH_EV:
+            cur = e[1]
+        elif e[0] in ('gen_expr', 'gen_stmt', 'gen_addr'):
+            ds.append(cur); cur = None
+    ps = [n for n in nodes if n[0] == 'pseudo']
+    if len(ps) != len(ds):
+        return None
+    return {id(n): d for n, d in zip(ps, ds)}
+
+
+def _rsp_reach(nodes):
+    """{id(pseudo node): set of %rsp displacements (bytes; None = after an adjustment by a non-constant) with which the emitted code reaches the
+    child, following its own jumps}, converged?  Children are stack-neutral (R20.1 / R20.2 / R20.7)."""
+    from ..chibi import parse_ins, JCC
+    labels = {}
+    for i, n in enumerate(nodes):
+        if n[0] == 'label':
+            labels.setdefault(n[1], []).append(i)
+
+    def target(lab, i):
+        m = _re.match(r'^(\d+)([fb])$', lab)
+        if m:
+            c = labels.get(m.group(1), [])
+            c = [j for j in c if j > i] if m.group(2) == 'f' else [j for j in c if j < i]
+            return (min(c) if m.group(2) == 'f' else max(c)) if c else None
+        c = labels.get(lab)
+        return c[0] if c else None
+    seen = {}
+    work = [(0, 0)]
+    steps = 0
+    while work:
+        i, h = work.pop()
+        if i >= len(nodes):
+            continue
+        hs = seen.setdefault(i, set())
+        if h in hs:
+            continue
+        steps += 1
+        if steps > 20000 or len(hs) > 8:
+            return {}, False
+        hs.add(h)
+        n = nodes[i]
+        if n[0] != 'ins':
+            work.append((i + 1, h)); continue
+        ins = parse_ins(n[1])
+        if ins is None:
+            work.append((i + 1, h)); continue
+        mn, ops = ins
+        if mn == 'jmp' or mn in JCC:
+            t = ops[0] if ops else ''
+            j = None if t.startswith('*') else target(t, i)
+            if j is not None:
+                work.append((j, h))
+            if mn != 'jmp':
+                work.append((i + 1, h))
+            continue
+        if mn == 'ret':
+            continue
+        r, x, known = stack_effect(n[1])
+        work.append((i + 1, None if (h is None or isinstance(r, tuple)) else h + r))
+    return {id(nodes[i]): hs for i, hs in seen.items() if nodes[i][0] == 'pseudo'}, True
+
+
+def _depth_vs_rsp(fname, kind, ctx, tr, nodes, entry_depth, labfn=None):
+    heights, reliable = _rsp_reach(nodes)
+    _depth_vs_rsp2(fname, kind, ctx, tr, nodes, heights, entry_depth, reliable, labfn)
+
+
+def _depth_vs_rsp2(fname, kind, ctx, tr, nodes, heights, entry_depth, reliable, labfn=None):
+    """one path of an arm: at every child the arm generates, `depth` has grown by one per 8 bytes the emitted code has moved %rsp down since the
+    arm was entered (heights: id(pseudo) -> set of %rsp displacements with which the emitted code reaches the child)"""
+    dm = _child_depths(ctx, nodes)
+    rank = {True: 0, None: 1, False: 2}
+    for n in nodes:
+        if n[0] != 'pseudo':
+            continue
+        lab = _lab(n[2]) if len(n) > 2 else n[1]
+        if labfn is not None:
+            lab = labfn(lab)
+        hs = heights.get(id(n))
+        if not hs:
+            continue          # not reached by the emitted code's own control flow
+        d = dm.get(id(n)) if dm is not None else None
+        dl = Lin.of(d) if d is not None else None
+        e0 = Lin.of(entry_depth)
+        verdict, msg = True, ''
+        if dl is None or e0 is None or not reliable or None in hs:
+            verdict, msg = None, 'the value of `depth` or of %rsp at this point is not a constant distance from its value at the entry of the arm'
+        else:
+            dd = dl.add(e0, -1)
+            if not isinstance(dd, int):
+                verdict, msg = None, '`depth` is %r here: not a constant distance from its value at the entry of the arm' % (d,)
+            else:
+                wrong = sorted(h for h in hs if h != -8 * dd)
+                if wrong:
+                    verdict = False
+                    msg = ('%s of %s hands its child `%s` to the generator with %%rsp %+d bytes from its value at the entry of the arm, while `depth` has changed by %+d slot(s) (%+d bytes): a break, continue or goto '
+                           'that leaves a statement expression inside this child releases `8*depth` minus the level of its target and is off by %d bytes at every execution; a label inside it records the wrong level'
+                           % (fname, kind, lab, wrong[0], dd, -8 * dd, abs(wrong[0] + 8 * dd)))
+        cur = _depth_at.get((fname, kind, lab))
+        if cur is None or rank[verdict] > rank[cur[0]]:
+            _depth_at[(fname, kind, lab)] = [verdict, msg, tr.text()]
 
 
 def _lab(o):
@@ -209,6 +349,7 @@ def check_kind(cg, rep, rule, fname, kind, mk, ret_stmt=False, value_from_last_s
               rep.ob('R20.3', '%s:%s:%s:depth-tracks-rsp' % (U, fname, kind), okd,
                    'on a path of %s(%s) `depth` changes by %r slots but the emitted templates move %%rsp by %+d bytes' % (fname, kind, dd, rsp_sum),
                    where=where, facts={'trace': tr.text()})
+        _depth_vs_rsp(fname, kind, ctx, tr, nodes, Sym('depth0', 'int'))
         for a in assigns(0, {}):
             ncls = a[nid]
             def pe(n, a=a):
@@ -261,10 +402,12 @@ def run(P, rep, tier):
     rep.assumptions += ['children satisfy the contract (induction hypothesis)', 'typing relation of each kind as produced by add_type (R01.2; conditional, comma, assignment, statement expression and call nodes: R20.11, R20.10)',
                         'instruction stack effects per Intel SDM for the mnemonics chibicc emits', 'ND_FUNCALL argument lists analysed separately (R20.3 call-site rule)',
                         'R20.14: no jump INTO a statement expression (GNU C forbids it): the case labels a switch jumps to and the target of a goto emitted at depth 0 are not deeper than the jump',
-                        'R20.13: the term machine follows a run-time loop of the emitted code for one and two iterations']
+                        'R20.13: the term machine follows a run-time loop of the emitted code for one and two iterations',
+                        'R20.15: a child that the arm\'s own emitted code reaches only through labels inside the child (the body of a switch) is not compared; children are stack-neutral (R20.1/2/7)']
     rep.rule('R20.1', 'every gen_expr arm: machine-stack effect 0 and x87 effect +1 iff the node is long double, assuming the same of its children', floor=60)
     rep.rule('R20.2', 'every gen_stmt arm: machine-stack effect 0 and x87 effect 0 (return: value left for the epilogue)', floor=12)
     rep.rule('R20.3', '`depth` bookkeeping equals emitted %rsp motion on every path', floor=40)
+    _record_depth(cg)
     # hook: remember root in ctx
     orig_explore = cg.explore
     def explore(fname, make_node, **kw):
@@ -309,6 +452,7 @@ def run(P, rep, tier):
         if n == 0:
             rep.undecided('R20.2', '%s:gen_stmt:%s' % (U, kind), 'no returning path')
     r_nonlocal_exits(cg, rep)
+    r_depth_at_children(cg, rep)
     # the x87 register stack is empty whenever an operand, sub-statement or address is generated: the operand may contain a call, the callee needs
     # all eight registers (psABI 3.2.3: empty on entry), and in a recursive function every pending value costs one register per activation
     rep.rule('R20.12', 'no arm of gen_expr / gen_stmt / gen_addr holds a value on the x87 register stack while it generates one of its children (a pending value is spilled to memory first): with the contract of R20.1 this makes the x87 stack empty at every call instruction, so recursion depth and callees cannot overflow it', floor=45)
@@ -323,6 +467,20 @@ def run(P, rep, tier):
                    '%s of %s generates its child `%s` while %d value(s) of its own are on the x87 register stack: a call inside that child enters the callee with a non-empty x87 stack, '
                    'and a recursive function (`return n ? p[n] * f(p, n - 1) : p[0];`) loses one register per activation - from depth 8 on the result is NaN' % (fname, kind, lab, d),
                    where=where, facts={'trace': text})
+
+
+def r_depth_at_children(cg, rep):
+    """R20.3 compares `depth` with the emitted %rsp motion at the END of an arm. gen_jump / gen_label (R20.14) read `depth` in the MIDDLE of arms: a
+    child may be a statement expression containing a jump out of it or a label. So the identity has to hold whenever a child is generated."""
+    rep.rule('R20.15', 'whenever an arm of gen_expr / gen_stmt / gen_addr (or the code pushing the arguments of a call) hands a child to the generator, `depth` has grown since the entry of the arm by exactly one per 8 bytes the emitted code has moved %rsp down (along the emitted code\'s own control flow): jumps out of and labels inside a statement expression in that child compute the bytes to release from `depth`, and a call inside it aligns %rsp by the parity of `depth`', floor=70)
+    for (fname, kind, lab), (verdict, msg, text) in sorted(_depth_at.items()):
+        fn = cg.cu.fn(fname)
+        where = '%s:%d' % (U, fn.line if fn else 0)
+        key = '%s:%s:%s:depth-counts-rsp-while-%s-is-generated' % (U, fname, kind, lab)
+        if verdict is None:
+            rep.undecided('R20.15', key, msg, where=where)
+        else:
+            rep.ob('R20.15', key, verdict, msg, where=where, facts={'trace': text})
 
 
 # aggregate shapes of this module in addition to the psABI vocabulary of sa/lib_abi.py (same format: size, align, members); they exist
@@ -750,6 +908,9 @@ def _call(cg, B, rep, types, ret, depth0, entry, where):
         else:
             rep.undecided('R20.5', key, m, where=where)
         return
+    tmap = {'a%d' % i: t for i, t in enumerate(types)}
+    _depth_vs_rsp(entry, 'ND_FUNCALL', ctx, tr, linearise(tr), depth0,
+                  labfn=lambda l: 'the-callee' if l == 'fn' else ('an-argument-of-type-' + tmap[l] if l in tmap else l))
     dd = ctx.globals.get('depth')
     ok = len(s.stack) == 0 and dd == depth0
     rep.ob('R20.5', key, ok, 'after the call %d pushed slot(s) are still on the stack and `depth` is %r (was %d): each evaluation of this call leaks stack' % (len(s.stack), dd, depth0), where=where, facts={'trace': tr.text()[-12:]})
@@ -1042,6 +1203,87 @@ def _mentions_depth(text):
     return 'depth0' in text
 
 
+_ASM_SYM = _re.compile(r'^(?:[A-Za-z0-9_.$]|\{[^}]*\})+$')
+
+
+def _scaled(v):
+    """a left shift by / product with a constant of a linear value, as a Lin; None for anything else"""
+    from ..interp import Term
+    if not (isinstance(v, Term) and len(v.args) == 2):
+        return None
+    op = v.op.split(':')[0]
+    x, y = v.args
+    if op == '<<' and isinstance(y, int) and 0 <= y < 32:
+        l = _as_lin(x)
+        return Lin.of(l.scale(1 << y)) if l is not None else None
+    if op == '*' and (isinstance(x, int) or isinstance(y, int)):
+        k, o = (x, y) if isinstance(x, int) else (y, x)
+        l = _as_lin(o)
+        return Lin.of(l.scale(int(k))) if l is not None else None
+    return None
+
+
+def _as_lin(v):
+    """value as a Lin over symbols, looking through `x << k` and `k * x` (`depth << 3`)"""
+    l = _scaled(v)
+    if l is not None:
+        return l
+    l = Lin.of(v)
+    if l is None:
+        return None
+    out = Lin(l.c, {})
+    for k, (co, leaf) in l.terms.items():
+        sub = _scaled(leaf)
+        out = Lin.of(out.add(Lin.of(sub.scale(co)) if sub is not None else Lin(0, {k: (co, leaf)})))
+    return out
+
+
+def _linear_operand(op, syms):
+    """immediate operand `$<sum of terms>` of an emitted instruction -> (coefficient of the entry value of `depth`, constant, {assembler symbol: coefficient}),
+    None when it is not such a sum. A rendered symbolic argument (`{...}`) is looked up in the trace's symbol table and has to be linear in `depth`."""
+    s = op.strip()
+    if not s.startswith('$'):
+        return None
+    s = s[1:]
+    terms, cur, sign, lvl = [], '', 1, 0
+    for ch in s:
+        if ch == '{':
+            lvl += 1
+        elif ch == '}':
+            lvl -= 1
+        if ch in '+-' and lvl == 0:
+            if cur.strip():
+                terms.append((sign, cur.strip()))
+                cur, sign = '', 1
+            if ch == '-':
+                sign = -sign
+            continue
+        cur += ch
+    if cur.strip():
+        terms.append((sign, cur.strip()))
+    if not terms:
+        return None
+    dkey = Sym('depth0', 'int').key()
+    b, c, atoms = 0, 0, {}
+    for sg, t in terms:
+        if _re.match(r'^\d+$', t):
+            c += sg * int(t)
+        elif t in syms:
+            l = _as_lin(syms[t])
+            if l is None:
+                return None
+            c += sg * l.c
+            for k, (co, leaf) in l.terms.items():
+                if k != dkey:
+                    return None
+                b += sg * co
+        elif _ASM_SYM.match(t) and not _re.match(r'^\d', t):
+            atoms[t] = atoms.get(t, 0) + sg
+        else:
+            return None
+    return b, c, {k: v for k, v in atoms.items() if v}
+
+
 def _nonlocal_exits(ctx, tr, nodes, kind):
     """one path of a gen_stmt arm: classify every jump whose target the arm does not define itself and record whether what the enclosing
     expressions have pushed (`depth` slots; the arm is explored at a symbolic depth) is released before it. Returns the nodes without the
@@ -1062,7 +1304,7 @@ def _nonlocal_exits(ctx, tr, nodes, kind):
         if n[0] == 'label':
             m = _ROOT_FIELD.match(n[1])
             if m:
-                _label_defs.setdefault((kind, m.group(1)), []).append({'label': n[1], 'sets': dict(sets), 'trace': tr.text()[-14:]})
+                _label_defs.setdefault((kind, m.group(1)), []).append({'label': n[1], 'sets': dict(sets), 'syms': dict(tr.syms), 'trace': tr.text()[-14:]})
     for i, n in enumerate(nodes):
         if n[0] != 'ins':
             continue
@@ -1091,18 +1333,32 @@ def _nonlocal_exits(ctx, tr, nodes, kind):
                 r, x, known = stack_effect(nodes[j][1])
                 if isinstance(r, tuple):
                     rel = (j, r, nodes[j][1]); break
-            if rel is not None and rel[1][0] == 'sym' and rel[1][1].startswith('add') and _mentions_depth(rel[1][2]):
+            if rel is not None and rel[1][0] == 'sym' and rel[1][1][:3] in ('add', 'sub') and _mentions_depth(rel[1][2]):
                 out[rel[0]] = ('ins', '')
-                # add $(8*depth) - S(label): the bytes pushed here minus the bytes pushed at the target, the latter as a symbol of the target
-                op = rel[1][2]
-                m2 = _re.match(r'^\$\{\(8\*depth0\)\}-(.+)$', op.replace(' ', ''))
-                m3 = _re.match(r'^\$\{\((\d+)\*depth0\)\}-(.+)$', op.replace(' ', ''))
-                if cls == 'named' and m2 and t in m2.group(1):
-                    verdict, msg = True, ('symbol', m2.group(1).replace(t, '<label>'))
-                elif m3 and m3.group(1) != '8':
-                    verdict, msg = False, 'the release `%s` before the jump counts %s bytes per pushed slot; a slot of `depth` is 8 bytes (R20.3)' % (rel[2].strip(), m3.group(1))
+                # the release moves %rsp up by b*depth + a*S + c bytes (depth: slots pushed at the jump, S: an assembler symbol of the target
+                # label, defined where the label is generated). It has to be 8*depth - 8*depth(target) for every pair of depths: b = 8 is a
+                # fact of the jump alone; a and c are judged together with what the label arms store in S (r_nonlocal_exits)
+                form = _linear_operand(rel[1][2], tr.syms)
+                shown = rel[2].strip()
+                if form is not None and rel[1][1].startswith('sub'):
+                    form = (-form[0], -form[1], {k: -v for k, v in form[2].items()})
+                if form is None:
+                    verdict, msg = None, 'the release `%s` before the jump is not a sum of multiples of `depth`, constants and assembler symbols; whether it brings %%rsp to the level of the target cannot be decided' % shown
                 else:
-                    verdict, msg = None, 'the release `%s` before the jump is not of the form 8*depth minus a symbol of the target label; whether it brings %%rsp to the level of the target cannot be decided' % rel[2]
+                    b, c, atoms = form
+                    mine = [k for k in atoms if cls == 'named' and t in k]
+                    if b == -8:
+                        verdict, msg = False, ('the release `%s` before the jump moves %%rsp DOWN by the 8*depth bytes the enclosing expressions have pushed (the sign of the amount is inverted): '
+                                               'instead of being released, the pending bytes are allocated once more' % shown)
+                    elif b != 8:
+                        verdict, msg = False, 'the release `%s` before the jump counts %d bytes per pushed slot; a slot of `depth` is 8 bytes (R20.3)' % (shown, b)
+                    elif len(atoms) == 1 and len(mine) == 1:
+                        verdict, msg = True, ('symbol', mine[0].replace(t, '<label>'), atoms[mine[0]], c)
+                    elif not atoms:
+                        verdict, msg = False, ('the release `%s` before the jump gives back everything the enclosing expressions have pushed, also what was pushed before the statement expression that contains the target '
+                                               '(nothing of the target label enters the amount)' % shown)
+                    else:
+                        verdict, msg = None, 'the release `%s` before the jump does not subtract one symbol of the target label; whether it brings %%rsp to the level of the target cannot be decided' % shown
             elif rel is not None:
                 verdict, msg = None, '%%rsp is changed by `%s` before the jump; whether this is the level of the target cannot be decided' % rel[2]
             elif depth_is_zero:
@@ -1160,9 +1416,9 @@ def r_nonlocal_exits(cg, rep):
             continue
         key = base + ('jump-to-%s' % fld if cls == 'named' else 'indirect-jump') + ':releases-pushed-operands'
         if verdict is False and isinstance(msg, str) and msg.startswith('the release '):
-            key += ':bytes-per-slot'
+            key += ':direction' if 'moves %rsp DOWN' in msg else (':bytes-per-slot' if 'bytes per pushed slot' in msg else ':amount')
         if isinstance(msg, tuple):
-            schemes.add(msg[1]); msg = ''
+            schemes.add(msg[1:]); msg = ''
         if verdict is None and not moot:
             rep.undecided('R20.14', key, msg, where=where)
         else:
@@ -1171,17 +1427,25 @@ def r_nonlocal_exits(cg, rep):
                    where=where, facts={'trace': trace, 'statements_generated_by_expression_kinds': sorted(_stmt_in_expr)})
     # when jumps subtract a symbol of the target label, every arm that defines a label a node can name must set that symbol to 8*depth
     linked = {fld.split('.')[-1] for (kind, cls, fld) in _exits if cls == 'descendant'}     # labels reached through a link from the jumping node (case labels): never named by a goto
-    for scheme in sorted(schemes):
+    for scheme, a, c in sorted(schemes):
         for (kind, fld), defs in sorted(_label_defs.items()):
             if fld in linked:
                 continue
             key = '%s:gen_stmt:%s:label-%s:records-its-depth' % (U, kind, fld)
             bad = None
+            und = None
             for d in defs:
                 sym = scheme.replace('<label>', d['label'])
                 v = d['sets'].get(sym)
-                if v is None or v.replace(' ', '') != '{(8*depth0)}':
+                # the jump releases 8*depth(jump) + a*S + c: S = p*depth(label) + q must make that 8*depth(jump) - 8*depth(label)
+                form = _linear_operand('$' + v, d.get('syms', {})) if v is not None else None
+                if v is not None and (form is None or form[2]):
+                    und = (sym, v)
+                elif v is None or a * form[0] != -8 or a * form[1] + c != 0:
                     bad = (sym, v, d['trace'])
-            rep.ob('R20.14', key, bad is None, 'jumps release `8*depth - %s`, but %s of gen_stmt defines the label `%s` %s: the jump releases the wrong number of bytes (or the output does not assemble)'
-                   % (scheme, kind, fld, ('without setting that symbol before the label' if bad and bad[1] is None else 'with the symbol set to %s instead of 8*depth' % (bad[1] if bad else ''))), where=where,
+            if und and not bad:
+                rep.undecided('R20.14', key, 'the value `%s` stored in %s is not a multiple of `depth` plus a constant' % (und[1], und[0]), where=where)
+                continue
+            rep.ob('R20.14', key, bad is None, 'jumps release `8*depth %+d*%s %+d`, but %s of gen_stmt defines the label `%s` %s: the jump releases the wrong number of bytes (or the output does not assemble)'
+                   % (a, scheme, c, kind, fld, ('without setting that symbol before the label' if bad and bad[1] is None else 'with the symbol set to %s (it has to be %+d*depth %+d)' % (bad[1] if bad else '', -8 // a if a and 8 % abs(a) == 0 else 0, 0))), where=where,
                    facts={'trace': bad[2] if bad else []})
